@@ -7,6 +7,12 @@ pub(crate) fn stub_unproj(x: f64, y: f64) -> (f64, f64) {
 }
 fn set_plane(x: f64, y: f64) { unsafe { PLANE = (x.to_bits(), y.to_bits()); } }
 
+/// harnesses on interior points (cell centre, offsets k/1024, nudged path points): the border path of hash_with_dxdy
+/// (`hash_with_dxdy_in_base_cell_frame`) must not be taken at all; it is replaced by a recorder and the harness asserts the flag
+static mut BORDER_PATH_TAKEN: bool = false;
+pub(crate) fn stub_border_path(_l: &hp::nested::Layer, _lon: f64, _lat: f64) -> (u64, f64, f64) { unsafe { BORDER_PATH_TAKEN = true; } (0, 0.0, 0.0) }
+fn border_path_taken() -> bool { unsafe { BORDER_PATH_TAKEN } }
+
 /// `Layer::d0h_lh_in_d0c` under the plane cut (used by hash_with_dxdy for the positions on / next to the polar base-cell borders):
 /// any base cell and in-base-cell coordinates consistent with the plane point chosen by the harness -- range facts of lemma R
 /// (decided on the real code by C01 / C02) and placement within 2^-46 (lemma P of C01): centre(d0h) + (l, h - 1) = (x, y), x modulo 8.
@@ -55,12 +61,14 @@ fn k_c03_cell(depth: u8, part: u8) {
     assert!(cx == cxi as f64 / n && cy == cyi as f64 / n, "C03: centre differs from the plane oracle");
     set_plane(cx, cy);
     let (hc, dxc, dyc) = layer.hash_with_dxdy(0.0, 0.0);
+    assert!(!border_path_taken(), "C03: the centre of a cell is treated as a base-cell border position");
     assert!(hc == h && dxc == 0.5 && dyc == 0.5, "C03: the centre of a cell does not hash back to it with offsets (0.5, 0.5)");
   } else if part == 1 {
     let (odx, ody) = (dxk as f64 / 1024.0, dyk as f64 / 1024.0);
     let (px, py) = layer.sph_coo(h, odx, ody);
     set_plane(px, py);
     let (h2, dx2, dy2) = layer.hash_with_dxdy(0.0, 0.0);
+    assert!(!border_path_taken(), "C03: an interior position is treated as a base-cell border position");
     assert!(h2 == h, "C03: an interior offset position does not hash back to its cell");
     let tol = 9.5367431640625e-07;   // 2^-20
     assert!(dx2 - odx <= tol && odx - dx2 <= tol && dy2 - ody <= tol && ody - dy2 <= tol, "C03: offsets are not recovered by hash_with_dxdy");
@@ -116,6 +124,7 @@ fn k_c03_path(depth: u8) {
   if !(p.0 == cx && p.1 == cy) {
     set_plane(nx, ny);
     let (h2, _, _) = layer.hash_with_dxdy(0.0, 0.0);
+    assert!(!border_path_taken(), "C03: an interior position is treated as a base-cell border position");
     assert!(h2 == h, "C03: a path / grid point nudged inwards does not hash back to its cell");
   }
 }
@@ -124,7 +133,11 @@ fn k_c03_path(depth: u8) {
 /// and sph_coo inverts it whenever both offsets are in [0, 1)
 /// split by latitude band of the point and by base cell `b` of the returned cell (the range harness shows the cell number is
 /// in range, so the 12 classes are exhaustive): with a concrete base cell the containment oracle folds to one facet
-fn k_c03_image(depth: u8, region: u8, b: u8) {
+/// part: 0 = offsets in [0, 1) (the generic case): sph_coo(h, dx, dy) gives the plane point back within 1e-13 (x modulo 8) -- the
+///           point is then within 1e-13 of a point of cell h, because sph_coo(h, dx, dy) = centre + ((dx - dy) / n, (dx + dy - 1) / n)
+///           (decided by c03_offset / c03_centre);
+///       1 = an offset equal to 1 or below 0 (borders of the polar base cells, poles, rounding): containment by the plane oracle
+fn k_c03_image(depth: u8, region: u8, b: u8, part: u8) {
   let x: f64 = kani::any();
   let y: f64 = kani::any();
   kani::assume(in_image(x, y, 8.881784197001252e-16));
@@ -135,7 +148,6 @@ fn k_c03_image(depth: u8, region: u8, b: u8) {
   if b < 12 {
     kani::assume(h >> (2 * depth as u32) == b as u64);
     kani::cover!(true, "a point of the band is mapped to the base cell");
-    kani::cover!(x == 2.0 * (b & 3) as f64 + 2.0 || x == 2.0 * (b & 3) as f64 || x == 2.0 * (b & 3) as f64 + 1.0, "on a base cell corner / centre line");
   } else {
     // complement class of a polar band (expected to be empty): any base cell other than the 4 of the cap
     let bb = h >> (2 * depth as u32);
@@ -144,12 +156,20 @@ fn k_c03_image(depth: u8, region: u8, b: u8) {
   assert!(h < spec_n_hash(depth), "C03: hash_with_dxdy out of range");
   let lo = c03_lo(depth);   // "up to rounding", see c03_lo
   assert!(dx >= lo && dx <= 1.0 && dy >= lo && dy <= 1.0, "C03: offsets not in [0, 1] (up to rounding)");
-  let e = ref_excess(depth, h, x, y);
-  assert!(e <= 1e-12, "C03: hash_with_dxdy returns a cell that does not contain the position");
-  if dx >= 0.0 && dx < 1.0 && dy >= 0.0 && dy < 1.0 {
+  let generic = dx >= 0.0 && dx < 1.0 && dy >= 0.0 && dy < 1.0;
+  if part == 0 {
+    kani::assume(generic);
     let (px, py) = layer.sph_coo(h, dx, dy);
-    let e2 = ref_excess_center(px, py, 0.0, x, y);
-    assert!(e2 <= 1e-9, "C03: sph_coo does not invert hash_with_dxdy");
+    let mut ex = px - x;
+    if ex > 4.0 { ex -= 8.0; }
+    if ex < -4.0 { ex += 8.0; }
+    let ey = py - y;
+    let tol = 1e-13;
+    assert!(ex <= tol && ex >= -tol && ey <= tol && ey >= -tol, "C03: sph_coo does not invert hash_with_dxdy");
+  } else {
+    kani::assume(!generic);
+    let e = ref_excess(depth, h, x, y);
+    assert!(e <= 1e-12, "C03: hash_with_dxdy returns a cell that does not contain the position");
   }
 }
 
